@@ -124,7 +124,7 @@ def run(index, tier="quick", seed=0) -> Result:
                     (any(isinstance(t_, tuple) and t_[0] == "val-of" for t_ in e.rhs.tags) and e.rhs.pdeps
                      and all(d_[0] == "param" for d_ in e.rhs.deps))
                 if "unit" in e.rhs.tags:
-                    res.ok("CT-7", k7 + ":" + ("given" if e.rhs.pdeps else "computed"), nontrivial=True)
+                    res.ok("CT-7", k7, nontrivial=True, sample={"stored_normal": "given or computed" if e.rhs.pdeps else "computed"})
                 elif raw:
                     res.bad("CT-7", k7 + ":unnormalised", e.where(), f"{label} stores the caller's normal as given (`{e.src()[:50]}`): every formula that "
                             "treats `_normal` as a unit vector (projected area, plane offsets, alignment rotation) is off by |n| for a normal of another length")
